@@ -169,6 +169,17 @@ func newRabWorld(n, t, k int, dealerObs bool) *rabWorld {
 		if firstOther {
 			w.resps[fmt.Sprintf("resp:%d:badsig", i)] = &bs
 		}
+		// a genuine complaint / approval whose status was flipped in transit, signature and everything else kept
+		if firstOther {
+			fc := *r2
+			fc.Signature = append([]byte{}, r2.Signature...)
+			fc.Approved = true
+			w.resps[fmt.Sprintf("resp:%d:complaint-flipped", i)] = &fc
+			fa := *r
+			fa.Signature = append([]byte{}, r.Signature...)
+			fa.Approved = false
+			w.resps[fmt.Sprintf("resp:%d:approval-flipped", i)] = &fa
+		}
 		// authentic approval of another session
 		d3 := w.dealer("previous-session", w.dLong, base.Scalar().Pick(alpha.Stream("c10-old-secret")))
 		e3, _ := d3.EncryptedDeal(i)
